@@ -142,10 +142,13 @@ func spaces(quick bool) []*Space {
 		commit("way2", 6, false, 100*ms),
 		commit("way2r", 6, true, 100*ms),
 		pre("way2", 5, m, outer, 2*h, 0),
-		inter(pre("way2", 4, m, all, 2*h, 10*m, 0)),
+		pre("way2", 4, m, all, 2*h, 10*m, 0),
+		inter(pre("way2", 4, m, outer, 2*h, 0)),
+		inter(pre("way2", 3, m, all, 2*h, 10*m, 0)),
 		pre("way2", 5, 30*m, outer, 2*h),
 		odd(commit("way3", 4, true, h, 100*ms)),
-		inter(odd(pre("way3", 4, m, outer, 2*h, 0))),
+		odd(pre("way3", 4, m, all, 2*h, 0)),
+		inter(odd(pre("way3", 3, m, all, 2*h, 0))),
 		commit("rel3", 4, false, 100*ms),
 		pre("rel3", 4, m, outer, 2*h, 0),
 		odd(commit("rel4", 3, true, h, 100*ms, 10*m)),
